@@ -32,6 +32,21 @@ type Val struct {
 	S    string `json:"s,omitempty"`
 	Y    []byte `json:"y,omitempty"`
 	Bad  bool   `json:"bad,omitempty"` // a Go value no codec can encode
+	// Zone (date, timestamp, timestamptz): the time.Time the handler writes lives in a fixed zone this
+	// many seconds east of UTC. A zone-less type carries the value's own calendar date and clock
+	// time (what pgtype encodes); timestamptz carries the instant.
+	Zone int `json:"zone,omitempty"`
+}
+
+func (v Val) inZone(u time.Time, instant bool) time.Time {
+	if v.Zone == 0 {
+		return u
+	}
+	loc := time.FixedZone("verif", v.Zone)
+	if instant {
+		return u.In(loc)
+	}
+	return time.Date(u.Year(), u.Month(), u.Day(), u.Hour(), u.Minute(), u.Second(), u.Nanosecond(), loc)
 }
 
 func (v Val) IsNull() bool { return v.Null != "" }
@@ -240,7 +255,7 @@ func (v Val) Go() any {
 		}
 		return x
 	case "date":
-		x := dateOf(c.(int64))
+		x := v.inZone(dateOf(c.(int64)), false)
 		switch v.Rep {
 		case "ptr":
 			return &x
@@ -249,7 +264,7 @@ func (v Val) Go() any {
 		}
 		return x
 	case "timestamp":
-		x := tsOf(c.(int64))
+		x := v.inZone(tsOf(c.(int64)), false)
 		switch v.Rep {
 		case "ptr":
 			return &x
@@ -258,7 +273,7 @@ func (v Val) Go() any {
 		}
 		return x
 	case "timestamptz":
-		x := tsOf(c.(int64))
+		x := v.inZone(tsOf(c.(int64)), true)
 		switch v.Rep {
 		case "ptr":
 			return &x
